@@ -279,7 +279,7 @@ pub fn vblock_strategy(big: bool) -> BoxedStrategy<VBlock> {
         2 => prop_oneof![10 => Just(0u32), 30 => 0u32..5000, 1 => Just((1u32 << 24) - 1), 1 => Just((1u32 << 24) - 5)].prop_map(VBlock::Padding),
         2 => (any::<u32>(), prop_oneof![3 => 0u32..300, 1 => biglen.clone()]).prop_map(|(id, len)| VBlock::App { id, len }),
         2 => seek_points_strategy().prop_map(|(points, placeholders)| VBlock::Seek { points, placeholders }),
-        3 => (text_strategy(60), proptest::collection::vec(prop_oneof![3 => (text_strategy(8), text_strategy(60)).prop_map(|(k, v)| format!("K{}={}", k.replace('=', ""), v)), 1 => text_strategy(30)], 0..8))
+        3 => (text_strategy(60), proptest::collection::vec(prop_oneof![6 => (text_strategy(8), text_strategy(60)).prop_map(|(k, v)| format!("K{}={}", k.replace('=', ""), v)), 2 => text_strategy(30), 1 => channel_mask_field()], 0..8))
             .prop_map(|(vendor, fields)| VBlock::Vorbis { vendor, fields }),
         3 => (0u8..21, text_strategy(30), text_strategy(60), any::<[u32; 4]>(), prop_oneof![3 => 0u32..300, 1 => biglen])
             .prop_map(|(ptype, mime, desc, dims, len)| VBlock::Picture { ptype, mime, desc, dims, len }),
@@ -432,6 +432,19 @@ pub fn rcuesheet_strategy() -> BoxedStrategy<RBlock> {
     .boxed()
 }
 
+/// Vorbis comment entries that drive the channel-mask accessor, well-formed and not
+pub fn channel_mask_field() -> BoxedStrategy<String> {
+    prop_oneof![
+        proptest::sample::select(
+            &["", "0", "x", "0x", "0x3", "0x33", "0X3", "3", "0xFFFFFFFF", "0x1FFFFFFFF", "0é", "0€3", "é", "0x-1", "0x 3", " 0x3", "0xg", "00x3", "0x0"][..]
+        )
+        .prop_map(|v| format!("WAVEFORMATEXTENSIBLE_CHANNEL_MASK={v}")),
+        "[0x]{0,3}[0-9A-Fa-fx]{0,9}".prop_map(|v| format!("WAVEFORMATEXTENSIBLE_CHANNEL_MASK={v}")),
+        ".{0,4}".prop_map(|v| format!("waveformatextensible_channel_mask={v}")),
+    ]
+    .boxed()
+}
+
 pub fn utf8_bytes(max: usize) -> BoxedStrategy<Vec<u8>> {
     text_strategy(max).prop_map(|s| s.into_bytes()).boxed()
 }
@@ -446,7 +459,8 @@ pub fn rblock_strategy() -> BoxedStrategy<RBlock> {
             }
             RBlock::SeekTable { points }
         }),
-        2 => (utf8_bytes(40), proptest::collection::vec(utf8_bytes(50), 0..8)).prop_map(|(vendor, fields)| RBlock::Vorbis { vendor, fields }),
+        3 => (utf8_bytes(40), proptest::collection::vec(prop_oneof![3 => utf8_bytes(50), 1 => channel_mask_field().prop_map(|s| s.into_bytes())], 0..8))
+            .prop_map(|(vendor, fields)| RBlock::Vorbis { vendor, fields }),
         2 => (0u32..=20, utf8_bytes(30), utf8_bytes(40), any::<[u32; 4]>(), proptest::collection::vec(any::<u8>(), 0..80))
             .prop_map(|(ptype, mime, desc, d, data)| RBlock::Picture { ptype, mime, desc, width: d[0], height: d[1], depth: d[2], colors: d[3], data }),
         4 => rcuesheet_strategy(),
